@@ -118,13 +118,21 @@ func (con *Connection) nextFrame() []byte {
 
 // Write writes bytes to the connection.
 // The written bytes are encrypted when possible.
-func (con *Connection) Write(b []byte) (int, error) {
+func (con *Connection) Write(b []byte) (n int, err error) {
 	verifYield("write", con, b)
 	if con.getEncrypter() != nil {
-		return con.EncryptedWrite(b)
+		n, err = con.EncryptedWrite(b)
+	} else {
+		n, err = con.connection.Write(b)
 	}
 
-	return con.connection.Write(b)
+	// The response to the last request is written.
+	// A cryptographer which was set while handling that request encrypts from now on.
+	if s, ok := con.context.GetSessionForConnection(con.connection).(*session); ok {
+		s.activateNextCryptographer()
+	}
+
+	return n, err
 }
 
 // Read reads bytes from the connection. The read bytes are decrypted when possible.
@@ -134,7 +142,14 @@ func (con *Connection) Read(b []byte) (int, error) {
 		return con.DecryptedRead(b)
 	}
 
-	return con.connection.Read(b)
+	n, err := con.connection.Read(b)
+	if n > 0 && con.getDecrypter() != nil {
+		// The cryptographer was set while waiting for data: the bytes are already encrypted.
+		con.encrypted = append(con.encrypted, b[:n]...)
+		return con.DecryptedRead(b)
+	}
+
+	return n, err
 }
 
 // Close closes the connection and deletes the related session from the context.
